@@ -7,7 +7,7 @@ from sa.absint import Evaluator, all_effects
 from sa.callgraph import CallGraph
 from sa.index import AnalysisError, walk_no_nested
 from rules.setuse import order_observable, parents_of
-from sa.terms import App, Const, Ref, Sym, contains, subterms
+from sa.terms import App, Const, Ref, Sym, contains, subterms, cases
 from . import generic
 
 EXPLANATION = ("lock-step walk of the schema graph extracted from the Metadata tables against a reference shape "
@@ -184,6 +184,8 @@ def run(ctx):
     R.rule("C02-D3 code/name roles", 9, "encode looks names up and writes codes; decode the reverse")
     generic.lookup_attribute_facts(ctx, "C02-D3 code/name roles")
     flatten_rule(ctx)
+    constructors_store_unchanged(ctx)
+    children_embedded_by_value(ctx)
     cbstr_rule(ctx)
     generic_encoder_rules(ctx)
 
@@ -252,6 +254,90 @@ def encode_path_rules(ctx):
             R.ok("C02-D2 order preserving encode path", fq)
     if dumps_sites < 2:
         raise AnalysisError("fewer than 2 cbor2.dumps sites found on the encode path (resolver lost them)")
+
+
+def constructors_store_unchanged(ctx):
+    """Every constructor of a schema / generic node class stores the value it was given: a conversion there (int(value), bytes(value),
+    value.lower(), ...) changes what is encoded for some description values (int(True) == 1 turns the boolean form into an integer)."""
+    R = ctx.report
+    repo = ctx.repo
+    R.rule("C02-D5b constructors store the value unchanged", 8, "super().__init__(value) / setattr(self, <name>, value) with the parameter itself")
+    n = 0
+    for m in repo.modules.values():
+        if not m.name.startswith("suit_generator.suit"):
+            continue
+        for f in m.functions.values():
+            if f.name != "__init__" or f.cls is None:
+                continue
+            params = [a.arg for a in f.node.args.args][1:]
+            rebound = {x.id for x in ast.walk(f.node) if isinstance(x, ast.Name) and isinstance(x.ctx, ast.Store) and x.id in params}
+            for c in walk_no_nested(f.node):
+                if not isinstance(c, ast.Call):
+                    continue
+                is_super = isinstance(c.func, ast.Attribute) and c.func.attr == "__init__"
+                is_setattr = isinstance(c.func, ast.Name) and c.func.id == "setattr" and len(c.args) == 3
+                if not (is_super or is_setattr):
+                    continue
+                vals = [c.args[2]] if is_setattr else list(c.args) + [k.value for k in c.keywords]
+                n += 1
+                ok = all((isinstance(v, ast.Name) and v.id in params and v.id not in rebound)
+                         or (isinstance(v, ast.Starred) and isinstance(v.value, ast.Name))
+                         or (isinstance(v, ast.Name) and v.id in ("args", "kwargs")) for v in vals) and bool(vals)
+                R.check("C02-D5b constructors store the value unchanged", ok, f"{ctx.fq(f)}: {ast.unparse(c)[:60]}", mod=m, node=c, function=ctx.fq(f),
+                        expected="the constructor parameter itself is stored (checks may reject it, nothing converts it)",
+                        found=f"stored expression {[ast.unparse(v)[:40] for v in vals]}" + (f"; parameter {sorted(rebound)} reassigned" if rebound else ""))
+    if n < 8:
+        raise AnalysisError(f"only {n} constructor stores found in the schema modules")
+
+
+def children_embedded_by_value(ctx):
+    """Generic containers embed each child as decode(child.to_cbor()): the child's own encoding decides every byte of its value (in
+    particular the byte-string wrap of a cbstr child survives as a byte string).  Any other value put into the container under
+    construction - a slice of the child's bytes, a re-typed value - changes the wire format for some children."""
+    R = ctx.report
+    repo = ctx.repo
+    R.rule("C02-D5c children embedded by value", 7, "every value stored / appended by a generic to_cbor is deserialize_cbor(<child>.to_cbor()) (or its tuple form) or an entry code")
+    ev = Evaluator(repo, inline_depth=0)
+    dec_fi = repo.func(COMMON, "SuitObject.deserialize_cbor")
+
+    def is_dec(t):
+        return isinstance(t, App) and t.op == "call" and isinstance(t.args[0], Ref) and t.args[0].obj is dec_fi and isinstance(t.args[-1], App) \
+            and t.args[-1].op == "meth:to_cbor"
+
+    def ok_value(t):
+        if is_dec(t) or (isinstance(t, App) and t.op == "tupleof" and is_dec(t.args[0])):
+            return True
+        if isinstance(t, App) and t.op == "attr:id":
+            return True
+        return False
+    for q in ("SuitKeyValue.to_cbor", "SuitKeyValueUnnamed.to_cbor", "SuitKeyValueTuple.to_cbor", "SuitTupleNamed.to_cbor", "SuitList.to_cbor",
+              "SuitTag.to_cbor", "SuitBitfield.to_cbor"):
+        fi = repo.func(COMMON, q)
+        vals = []
+        for o in ev.outcomes(fi):
+            if o.kind != "return":
+                continue
+            for e in all_effects(o.effects):
+                if not isinstance(e, App):
+                    continue
+                if e.op == "eff:store":
+                    vals += [e.args[1], e.args[2]]
+                elif e.op == "eff:call" and isinstance(e.args[0], App) and e.args[0].op in ("meth:append", "meth:update", "meth:extend", "meth:insert", "meth:add"):
+                    vals += list(e.args[0].args[1:])
+            for s_ in subterms(o.value):
+                if isinstance(s_, App) and s_.op == "tag":
+                    vals.append(s_.args[1])
+                if isinstance(s_, App) and s_.op == "+" and q.startswith("SuitBitfield"):
+                    vals.append(s_.args[1])
+        if not vals:
+            raise AnalysisError(f"{q}: no value put into the container recognised")
+        bad = []
+        for v in vals:
+            for g_, t in cases(v):
+                if not ok_value(t) and t not in bad:
+                    bad.append(t)
+        R.check("C02-D5c children embedded by value", not bad, q, mod=fi.module, node=fi.node, function=ctx.fq(fi),
+                expected="self.deserialize_cbor(child.to_cbor()) for every child (entry codes as keys)", found=f"{[repr(b)[:120] for b in bad][:2]}", key_extra=q)
 
 
 def flatten_rule(ctx):
